@@ -355,10 +355,12 @@ def _run_hyp(mod, sub, res, findings, seedval, n, tier, t0, budget_s):
         clause, detail, case = state['last_fail']
         try:
             sub.run(case)
+            detail += ' [observed during generation; the same case passed when re-executed - the outcome depends on process state such as memory addresses]'
         except Violation as v2:
-            res.violation = (v2.clause, v2.detail, case)
-        else:
-            raise
+            clause, detail = v2.clause, v2.detail
+        except Exception:  # noqa: BLE001
+            pass
+        res.violation = (clause, detail, case)
 
 
 def _run_machine(mod, sub, res, findings, seedval, n, tier, t0, budget_s):
